@@ -6,12 +6,12 @@ def plans(tier):
     S = pc.STRATS
     if tier == "quick":
         return [
-            ("mix", pc.consts(["round_robin"], N=2, N0=2, weight="W111", win=1, thr=2, maxhold=1, outcomes=("ok", "fail", "abort", "hold"))),
+            ("mix", pc.consts(["round_robin"], N=2, N0=2, weight="W111", win=1, thr=2, maxhold=1, outcomes=("ok", "fail", "abort", "cancel", "hold"))),
             ("mix-lc", pc.consts(["least_connections", "weighted_round_robin"], N=2, N0=2, weight="W111", win=1, thr=2, maxhold=1, outcomes=("ok", "abort", "hold"))),
-            ("all503", pc.consts(S, N=2, N0=2, weight="W111", win=2, thr=1, outcomes=("ok", "fail", "abort"))),
+            ("all503", pc.consts(S, N=2, N0=2, weight="W111", win=2, thr=1, outcomes=("ok", "fail", "abort", "cancel"))),
         ]
     return [
-        ("mix", pc.consts(S, win=1, thr=2, maxhold=1, outcomes=("ok", "fail", "abort", "hold"))),
+        ("mix", pc.consts(S, win=1, thr=2, maxhold=1, outcomes=("ok", "fail", "abort", "cancel", "hold"))),
         ("all503", pc.consts(S, N=2, N0=2, weight="W111", win=2, thr=1, maxhold=1, outcomes=("ok", "fail", "abort", "hold"))),
     ]
 
